@@ -22,6 +22,14 @@ the first `poll` of pending requests, and later. Requests that arrived before ar
 nothing had happened (the decision belongs to the request's first poll and to the seed's stream, not to the lifetime
 of a handle); later `arrive`s are `noop`.
 
+Caller modes `arrive c … via=<mode> tvia=<mode>` (instance A / the twin): `clone` clone the template, ready the clone,
+call it; `readyclone` ready the template, then clone it, ready the clone, call the clone (a handle is cloned between
+`poll_ready` and `call`); `swap` the `mem::replace` idiom; `template` ready and call the template itself — generated in
+every rate regime, uniformly per case or mixed per request. Header `ready=<script>`: instance A wraps the strict
+scripted service (readiness per instance; `poll_ready` answered 'r'/'p'/'e' from the script; `inner_call … ready=0|1`);
+the twin's silent wrapped service is strict as well (`#unready-b c`). A request refused by `poll_ready` is
+`result c notready`.
+
 `manual stress threads=<N> calls=<K>`: real-OS-thread stress search on a separate, freshly built and equally
 seeded instance (N threads with a clone each, K calls in total, first poll only). A SEARCH, NOT A PROOF:
 whether a race shows depends on the machine's scheduling. Oracles = the property's clauses (see
@@ -194,6 +202,85 @@ def pick_out(rng):
     return "never"
 
 
+VIAS = ["clone", "readyclone", "swap", "template"]
+
+
+def ready_script(rng, hard=True):
+    """readiness answers of the strict wrapped service: mostly ready, sometimes pending / error (never empty)"""
+    if not hard or rng.random() < 0.55:
+        return "r" * rng.randint(1, 3)
+    return "".join(rng.choice("rrrrrrpe") for _ in range(rng.randint(1, 14)))
+
+
+def caller_modes(rng):
+    """-> function giving the ` via=… tvia=…` suffix of the next `arrive` (instance A / the twin): defaults only,
+    one mode for the whole case (readyclone / swap twice as likely: a handle cloned while ready), or mixed"""
+    def pick():
+        r = rng.random()
+        if r < 0.35:
+            return lambda: None
+        if r < 0.70:
+            v = rng.choice(VIAS + ["readyclone", "swap"])
+            return lambda: v
+        return lambda: rng.choice(VIAS + ["readyclone", "swap", None])
+    a, b = pick(), pick()
+
+    def suffix():
+        va, vb = a(), b()
+        return ("" if va is None else " via=%s" % va) + ("" if vb is None else " tvia=%s" % vb)
+    return suffix
+
+
+def gen_modes(rng):
+    """Caller modes in a chosen rate regime over the strict wrapped service: a few requests per handle, so that a
+    handle that was cloned / replaced while ready-but-uncalled is used again"""
+    seed = rng.choice([0, 1, 42, rng.randint(0, (1 << 64) - 1), rng.randint(0, 1000)])
+    mid = lambda: "T%d" % rng.choice([P53 // 2, P53 // 4, P53 - P53 // 8, rng.randint(1, P53 - 1)])
+    regime = rng.choice(["zero", "zero", "e1", "l1", "mid", "mid"])
+    if regime == "zero":
+        rates = rng.choice([" erate=T0 lrate=T0", " lrate=T0"])
+    elif regime == "e1":
+        rates = " erate=T%d lrate=%s" % (P53, rng.choice(["T0", mid(), "T%d" % P53]))
+    elif regime == "l1":
+        rates = rng.choice([" erate=T0", ""]) + " lrate=T%d" % P53
+    else:
+        rates = rng.choice([" erate=%s" % mid(), ""]) + " lrate=%s" % mid()
+    mn = rng.choice([0, 1, 3, 10])
+    mx = rng.choice([mn, mn + 1, mn + 6, max(0, mn - 1)])
+    hdr = "chaos seed=%d%s min_us=%d max_us=%d" % (seed, rates, mn * 1000, mx * 1000)
+    if "erate" in hdr and rng.random() < 0.3:
+        hdr += " order=1"
+    if rng.random() < 0.5:
+        hdr += " handles=%d" % rng.choice([1, 1, 2, 3])
+    if rng.random() < 0.85:
+        hdr += " ready=%s" % ready_script(rng, hard=rng.random() < 0.5)
+    suffix = caller_modes(rng)
+    if rng.random() < 0.5:                          # one mode throughout (both instances)
+        v, w = rng.choice(["readyclone", "swap"]), rng.choice(VIAS)
+        suffix = lambda: " via=%s tvia=%s" % (v, w)
+    ops = ["probe cfg"]
+    n = rng.randint(2, 9)
+    unpolled = []
+    for c in range(1, n + 1):
+        lat = rng.choice([0, 0, 1, 4])
+        ops.append("arrive %d tag=%d inner=%d:%s%s" % (c, rng.randint(0, 99), lat, pick_out(rng), suffix()))
+        unpolled.append(c)
+        r = rng.random()
+        if r < 0.5:
+            ops.append("poll %d" % unpolled.pop(rng.randrange(len(unpolled))))
+        elif r < 0.6:
+            ops.append("drop %d" % unpolled.pop(rng.randrange(len(unpolled))))
+        if rng.random() < 0.2:
+            ops.append("adv %d" % rng.choice([1, mn, mx + 1]))
+        if rng.random() < 0.08:
+            ops.append("manual dropsvc")
+    rng.shuffle(unpolled)
+    for c in unpolled:
+        ops.append("poll %d" % c)
+    ops += ["adv %d" % (max(mn, mx)), "settle", "adv 5", "settle"]
+    return {"header": hdr, "ops": ops}
+
+
 STRESS_P = {"quick": 0.025, "thorough": 0.012}
 STRESS_CALLS = {"quick": [40000, 80000, 120000, 200000], "thorough": [50000, 100000, 200000, 400000, 800000]}
 
@@ -233,6 +320,19 @@ def gen_stress(rng, tier):
 def gen(rng, tier):
     if rng.random() < STRESS_P.get(tier, 0.02):
         return gen_stress(rng, tier)
+    if rng.random() < 0.07:
+        return gen_modes(rng)
+    case = gen_ordinary(rng, tier)
+    # caller modes and the strict wrapped service, in whatever rate regime the case has
+    modes = caller_modes(rng) if rng.random() < 0.5 else None
+    if rng.random() < 0.45:
+        case["header"] += " ready=%s" % ready_script(rng, hard=rng.random() < 0.35)
+    if modes:
+        case["ops"] = [o + modes() if o.startswith("arrive ") else o for o in case["ops"]]
+    return case
+
+
+def gen_ordinary(rng, tier):
     seed = rng.choice([0, 1, 42, 42, (1 << 64) - 1, rng.randint(0, (1 << 64) - 1), rng.randint(0, (1 << 64) - 1), rng.randint(0, 1000)])
     hdr = "chaos seed=%d" % seed
     has_e = rng.random() < 0.85
@@ -508,6 +608,69 @@ def mon_extremes(case, lines, meta):
     return None
 
 
+def _readiness(case, lines, meta):
+    """-> (per request of instance A: (mode, answers of the layer, answers of its wrapped service), mode of the twin per
+    request, requests for which the twin's wrapped service was called unready)"""
+    rdy, tvia, unready_b = {}, {}, []
+    for _, m in meta:
+        w = m.split()
+        if w[0] == "#rdy" and len(w) >= 3:
+            kv = kvs(m)
+            rdy[int(w[1])] = (kv.get("via", "?"), kv.get("layer", ""), kv.get("inner", ""))
+        elif w[0] == "#tvia" and len(w) >= 3:
+            tvia[int(w[1])] = w[2]
+        elif w[0] == "#unready-b" and len(w) >= 2:
+            unready_b.append(int(w[1]))
+    return rdy, tvia, unready_b
+
+
+MODE_TEXT = {"clone": "clone the template, ready the clone, call the clone",
+             "readyclone": "ready the template, clone it, ready the clone, call the clone",
+             "swap": "ready the template, leave a fresh clone in its place (mem::replace), call the readied handle",
+             "template": "ready the template and call it"}
+
+
+def mon_readiness(case, lines, meta):
+    """The wrapped service is only called on an instance that reported ready (Tower readiness contract), whichever
+    way the caller obtained the handle it calls; the layer forwards readiness (a refusal of the wrapped service is a
+    refusal of the layer and vice versa); with both rates 0 the layer forwards readiness and calls unchanged."""
+    i = _scan(case, lines, meta)
+    rdy, tvia, unready_b = _readiness(case, lines, meta)
+    both0 = i["eT"] == 0 and i["lT"] == 0
+    if i["eT"] is None:                            # a shrunk case may have lost `probe cfg`: exact specs of the header
+        cfg = kvs(case["header"])
+        both0 = cfg.get("erate", "T0") == "T0" and cfg.get("lrate", "T0") == "T0"
+    pre = "both rates 0 (the layer must be transparent) but " if both0 else ""
+    history = lambda c: "; caller modes so far: " + ", ".join("%d:%s" % (k, rdy[k][0]) for k in sorted(rdy) if k <= c)
+    for l in lines:
+        t, w = tparse(l)
+        if w and w[0] == "inner_call" and "ready=0" in w:
+            c = int(w[1])
+            via = rdy.get(c, ("?",))[0]
+            return ("%srequest %d (caller: %s) — the wrapped service was called on an instance that never reported ready since "
+                    "its last call (Tower readiness contract: poll_ready must have returned Ready on the very instance that is "
+                    "called); poll_ready answers of the layer during this arrival: '%s', answers its wrapped service gave: '%s'%s"
+                    % (pre, c, MODE_TEXT.get(via, via), rdy.get(c, ("", "", ""))[1], rdy.get(c, ("", "", ""))[2], history(c)))
+    for c in unready_b:
+        via = tvia.get(c, "?")
+        return ("%srequest %d on the twin instance (caller: %s) — the wrapped service was called on an instance that never "
+                "reported ready since its last call (Tower readiness contract); twin caller modes: %s"
+                % (pre, c, MODE_TEXT.get(via, via), ", ".join("%d:%s" % (k, tvia[k]) for k in sorted(tvia) if k <= c)))
+    for c in sorted(rdy):
+        via, lay, inn = rdy[c]
+        if inn and inn[-1] in "pe" and (not lay or lay[-1] != inn[-1]):
+            return ("%srequest %d (caller: %s): the wrapped service answered poll_ready '%s' but the layer answered '%s': readiness "
+                    "is not forwarded" % (pre, c, MODE_TEXT.get(via, via), inn, lay))
+        if lay and lay[-1] in "pe" and (not inn or inn[-1] != lay[-1]):
+            return ("%srequest %d (caller: %s): the layer answered poll_ready '%s' although its wrapped service answered '%s': "
+                    "readiness is not forwarded" % (pre, c, MODE_TEXT.get(via, via), lay, inn))
+        if both0 and lay != inn:
+            return ("both rates 0 (the layer must be transparent) but during the arrival of request %d (caller: %s) the layer "
+                    "answered poll_ready '%s' while its wrapped service was asked and answered '%s': poll_ready does not reach the "
+                    "wrapped instance of the handle" % (c, MODE_TEXT.get(via, via), lay, inn))
+    return None
+
+
 def _poll_instants(case):
     """caller -> instants at which it was polled, from the operations (`settle` polls every live caller)"""
     now = 0
@@ -610,6 +773,27 @@ def transitions(case, lines, meta=None):
         elif after and nosvc and w[:1] == ["arrive"]:
             tags.append("arrive-after-dropsvc")
             break
+    if "ready" in cfg:
+        tags.append("inner-strict")
+        if set(cfg["ready"]) & set("pe"):
+            tags.append("inner-refuses")
+    rdy, tvia, _ = _readiness(case, lines, meta or [])
+    made = [c for c in sorted(rdy) if rdy[c][1] and rdy[c][1][-1] == "r"]
+    for c in sorted(rdy):
+        tags.append("via-" + rdy[c][0])
+    for c in sorted(tvia):
+        tags.append("twin-via-" + tvia[c])
+    # a handle cloned / replaced while ready-but-uncalled, and a later request through the same template
+    hk = int(cfg.get("handles", "0"))
+    for n, c in enumerate(made):
+        if rdy[c][0] in ("readyclone", "swap") and any(hk == 0 or d % hk == c % hk for d in made[n + 1:]):
+            tags.append("ready-handle-cloned-then-reused")
+            if "ready" in cfg:
+                tags.append("ready-handle-cloned-then-reused-strict")
+    tw = [c for c in sorted(tvia)]
+    for n, c in enumerate(tw):
+        if tvia[c] in ("readyclone", "swap") and tw[n + 1:]:
+            tags.append("twin-ready-handle-cloned-then-reused")
     if "erate" not in cfg:
         tags.append("no-error-injector")
     for k in ("erate", "lrate"):
@@ -637,6 +821,9 @@ def transitions(case, lines, meta=None):
             e, ll = int(kv["eT"]), int(kv["lT"])
             tags.append("erate-" + ("0" if e == 0 else "1" if e == P53 else "mid"))
             tags.append("lrate-" + ("0" if ll == 0 else "1" if ll == P53 else "mid"))
+            if any(rdy[c][0] in ("readyclone", "swap") for c in rdy) and "ready" in cfg:
+                tags.append("modes-strict-at-" + ("rates-0" if e == 0 and ll == 0 else "erate-1" if e == P53 else
+                                                  "lrate-1" if e == 0 and ll == P53 else "rates-mid"))
         elif w[0] == "stress":
             kv = kvs(l)
             tags.append("stress-run")
@@ -670,7 +857,11 @@ ALL = ["range-eq", "range-inverted", "range-proper", "no-error-injector", "rate-
        "error-injected", "result-ok", "result-err", "result-panic", "handles-kept", "stress-run", "stress-all-error",
        "stress-all-pass", "stress-all-delay", "stress-mixed", "min-at-least-1s", "long-range-eq", "long-range-inverted",
        "long-range-proper", "max-only-at-least-1s", "bounds-hours", "long-bounds-sub-ms-part", "delay-of-seconds-completed",
-       "dropsvc", "first-poll-after-dropsvc", "arrive-after-dropsvc"]
+       "dropsvc", "first-poll-after-dropsvc", "arrive-after-dropsvc",
+       "inner-strict", "inner-refuses", "result-notready", "via-clone", "via-readyclone", "via-swap", "via-template",
+       "twin-via-clone", "twin-via-readyclone", "twin-via-swap", "twin-via-template", "ready-handle-cloned-then-reused",
+       "ready-handle-cloned-then-reused-strict", "twin-ready-handle-cloned-then-reused", "modes-strict-at-rates-0",
+       "modes-strict-at-erate-1", "modes-strict-at-lrate-1", "modes-strict-at-rates-mid"]
 
 LEVEL_NOTE = ("Trusted: Lean kernel; the line-by-line reading of service.rs:64-152 as TR.Model.Chaos.decideG / the poll-level machine, validated by the "
               "sampled correspondence check; rand's StdRng, random::<f64>() (= 53-bit numerator * 2^-53, < 1) and random_range(a..=b) in [a,b], which "
@@ -732,5 +923,6 @@ SPECS = {
     "C19": dict(COMMON, module="TR.Props.C19",
                 monitors=[("c19-determinism-twin", mon_determinism), ("c19-error-skips-inner", mon_error_skips_inner),
                           ("c19-extremes", mon_extremes), ("c19-latency-bounds", mon_latency),
+                          ("c19-readiness", mon_readiness),
                           ("c19-determinism-stream", mon_stream), ("c19-parallel-stress", mon_stress)]),
 }
